@@ -178,8 +178,7 @@ theorem VInv.interior {big : α} {L : List (Fix α)} {S : VState α} (h : VInv b
 theorem VInv.argmin_num {big : α} {L : List (Fix α)} {S : VState α} (h : VInv big L S) (hl : S.length > 2) :
     ∃ p v, S[argmin big (S.map (·.2))]? = some (p, some v) := by
   obtain ⟨p1, v1, hp1, hv1⟩ := h.mid 1 (by omega) (by omega)
-  obtain ⟨j, v, ej, hj⟩ := argminLoop_hit (S.map (·.2)) 0 big 0 ⟨1, v1, by simp [hp1], hv1⟩
-  have eid : argmin big (S.map (·.2)) = j := by unfold argmin; omega
+  obtain ⟨j, v, eid, hj⟩ := argmin_hit big (S.map (·.2)) ⟨1, v1, by simp [hp1], Or.inl hv1⟩
   rw [eid]
   obtain ⟨p, hp⟩ := map_snd_num S j v hj
   exact ⟨p, v, hp⟩
